@@ -303,6 +303,9 @@ func c07Gen(r *verifh.Rng) []verifh.Section {
 			mode = "rm"
 		}
 		g := r.Pick(2, 3, 4, 6, 8, r.Range(2, 12))
+		if verifh.Thorough() && r.Chance(1, 20) {
+			g = r.Range(12, 48)
+		}
 		k := r.Pick(1, 1, 2, 3)
 		procs := r.Pick(1, 2, 4, 8, 0)
 		// style of the run: many tiny calls (a new call meets the completion of the previous flight),
